@@ -1,6 +1,7 @@
 import DadiVerif.Lemmas.Integrate
 import DadiVerif.Lemmas.Precalc
 import DadiVerif.Lemmas.Pivots
+import DadiVerif.Lemmas.Positivity
 /-!
 # C02 — every integration path solves the documented implicit scheme
 
@@ -224,5 +225,51 @@ example : PivotsOk 1 0
   simp [PivotsOk, Line.rows, List.range, List.range.loop, axisLine, mkLine, Mkernel, deljC, AxisParams.V,
     Line.a, Line.b, Line.c, Line.df, Line.dxL, Line.dxR, C.Mfunc2D, C.Vfunc, C.atemp, C.ctemp, C.bcFirst, C.bcLast]
   norm_num
+
+/-! ### The implicit step keeps non-negative densities non-negative (discrete maximum principle, M-matrix case) -/
+
+/-- **Sign structure of the Thomas sweep** (`tridiag.c`, any size): non-positive off-diagonals, non-negative right-hand side and
+    positive pivots give a non-negative solution — the forward pass keeps `u[j] ≥ 0`, `gam[j] ≤ 0`, the back substitution only adds. -/
+theorem C02_nonneg_thomas (rows : List Row) (hp : PivotsPos 1 0 rows)
+    (hs : ∀ row ∈ rows, row.a ≤ 0 ∧ row.c ≤ 0 ∧ 0 ≤ row.r) : ∀ x ∈ thomas rows, 0 ≤ x :=
+  thomas_nonneg rows hp hs
+
+/-- **One implicit step along any line of any kernel preserves non-negativity** when the flux coefficients of every interval are
+    non-negative (the same M-matrix condition under which `C02_pivots_mmatrix` shows the pivots are ≥ 1/dt): increasing grid,
+    dt > 0, ν > 0, any delj, any corner flags, any non-negative density. -/
+theorem C02_nonneg_step_mmatrix : type_of% @mkLine_step_nonneg := @mkLine_step_nonneg
+
+/-- …unconditionally without migration and selection (any ν > 0, β > 0, dt > 0, grid inside [0,1], delj switch on or off) -/
+theorem C02_nonneg_step_nomig : type_of% @axisLine_step_nonneg_nomig := @axisLine_step_nonneg_nomig
+
+/-- …and with migration / selection / dominance under the interval condition −V(x_i) ≤ M(x_{i+½})·dx_i ≤ V(x_{i+1}) (delj = 1/2) -/
+theorem C02_nonneg_step_peclet : type_of% @axisLine_step_nonneg_peclet := @axisLine_step_nonneg_peclet
+
+/-- **Whole neutral integrations without migration, in 1–5 populations, keep a non-negative density non-negative at every grid
+    point**: any number of steps, any duration, any frozen / nomut flags, θ0 ≥ 0, every time step the `_compute_dt` rule produces
+    (constant parameters). -/
+theorem C02_nonneg_integrate_neutral : type_of% @integrateConst_nonneg_nomig := @integrateConst_nonneg_nomig
+
+/-- the same with sizes and θ0 given as functions of time -/
+theorem C02_nonneg_integrate_neutral_fn : type_of% @integrateFn_nonneg_nomig := @integrateFn_nonneg_nomig
+
+/-- non-vacuity of the hypotheses of `C02_nonneg_integrate_neutral`: the 3-point grid {0, 1/2, 1} in two populations, ν = (1, 3) -/
+example : GridsOk [#[0, 1/2, 1], #[0, 1/2, 1]] ∧ InjectGridsOk [#[0, 1/2, 1], #[0, 1/2, 1]]
+    ∧ NeutralPops ⟨[⟨1, 0, 1/2, [0]⟩, ⟨3, 0, 1/2, [0]⟩], 1, none⟩ := by
+  refine ⟨?_, ?_, ?_⟩
+  · intro xs hxs
+    simp only [List.mem_cons, List.not_mem_nil, or_false, or_self] at hxs
+    subst hxs
+    refine ⟨⟨by decide, ?_⟩, by norm_num, by norm_num⟩
+    intro j hj
+    have : j = 0 ∨ j = 1 := by simp at hj; omega
+    rcases this with rfl | rfl <;> norm_num
+  · intro l hl
+    have : l = 0 ∨ l = 1 := by simp at hl; omega
+    rcases this with rfl | rfl <;> norm_num
+  · refine ⟨?_, by intro β h; cases h⟩
+    intro p hp
+    simp only [List.mem_cons, List.not_mem_nil, or_false] at hp
+    rcases hp with rfl | rfl <;> simp
 
 end DadiVerif
